@@ -46,6 +46,13 @@ def fn_scale(x, factor: float = 2.0):
 
 
 @onnx_function
+def fn_gate(x, double=False, negate=False):
+    """Two runtime flags (exposed through input_params)."""
+    y = jnp.where(double, x * 2.0, x)
+    return jnp.where(negate, -y, y)
+
+
+@onnx_function
 class Block(nnx.Module):
     def __init__(self, din: int, dout: int, seed: int, act: str = "gelu"):
         self.linear = nnx.Linear(din, dout, rngs=nnx.Rngs(0))
